@@ -28,6 +28,7 @@ type Ob struct {
 	MutOK []string // parameters (names from P) that the function may legitimately rebind before the sink
 	Why  string
 	Only  bool    // kind ret with Pat: every return of that status must have the shape (the function computes nothing else)
+	Arity int     // when set: the obligation is one spelling for a function with that many parameters (receiver included); others count as unmatched
 	AltOf string  // obligations with the same AltOf are alternative spellings of one requirement: at least one of them must match a site
 }
 
@@ -220,6 +221,15 @@ func evalOb(c *Ctx, e *e1, ob Ob) (nMatched int) {
 	if fi == nil || fi.Body == nil {
 		c.R.Fail("anchor-unresolved", ob.Fn, ob.ID, fmt.Sprintf("function %s named by rule %s not found in the tree: re-point the specification", ob.Fn, ob.ID))
 		return 0
+	}
+	if ob.Arity != 0 && fi.Sig != nil {
+		n := fi.Sig.Params().Len()
+		if fi.Sig.Recv() != nil {
+			n++
+		}
+		if n != ob.Arity {
+			return 0
+		}
 	}
 	f := e.analyse(fi)
 	var pat *Term
@@ -541,8 +551,14 @@ func softAnchor(name string) bool {
 // valid) definition, or a variable / call / call result by the value recorded as equal to it on this path.  Breadth
 // first, at most four rewrites deep and at most limit terms.
 func rewriteClosure(st *fstate, t *Term, limit int) []*Term {
+	return rewriteWith(stateAlts(st), t, limit, false)
+}
+
+// stateAlts: what a term may be replaced by on this path (definitions still valid, recorded equalities).
+func stateAlts(st *fstate) map[string][]*Term {
 	alts := map[string][]*Term{}
-	for _, fc := range st.facts {
+	for _, k := range sortedKeys(st.facts) {
+		fc := st.facts[k]
 		switch {
 		case fc.S == "def" && len(fc.A) == 2 && fc.A[0].K == "var":
 			alts[fc.A[0].Key()] = append(alts[fc.A[0].Key()], fc.A[1])
@@ -555,6 +571,10 @@ func rewriteClosure(st *fstate, t *Term, limit int) []*Term {
 			}
 		}
 	}
+	return alts
+}
+
+func rewriteWith(alts map[string][]*Term, t *Term, limit int, top bool) []*Term {
 	if len(alts) == 0 {
 		return nil
 	}
@@ -567,6 +587,12 @@ func rewriteClosure(st *fstate, t *Term, limit int) []*Term {
 		if !top {
 			for _, a := range alts[t.Key()] {
 				emit(a)
+			}
+			if t.K == "call" || t.K == "mcall" {
+				// the value of a single-result call is also recorded as its result 0
+				for _, a := range alts[mk("res", "0", t).Key()] {
+					emit(a)
+				}
 			}
 		}
 		for i, a := range t.A {
@@ -581,7 +607,7 @@ func rewriteClosure(st *fstate, t *Term, limit int) []*Term {
 	for depth := 0; depth < 4 && len(frontier) > 0 && len(out) < limit; depth++ {
 		var next []*Term
 		for _, x := range frontier {
-			step(x, true, func(n *Term) {
+			step(x, !top, func(n *Term) {
 				if len(out) >= limit || seen[n.Key()] {
 					return
 				}
